@@ -9,6 +9,8 @@ HERE = os.path.dirname(os.path.abspath(__file__))
 PENDING = "check not built yet in this round (design in DESIGN.md section 3); not claimed until its command exists"
 NOT_APPLICABLE = {}
 HOOK_COMMITS = []
+# checks that are finished, reviewed and run clean on the unchanged tree (a builder's work in progress is not claimed)
+READY = {"C03", "C09", "C10", "C14", "C19"}
 
 
 def tracked():
@@ -28,7 +30,7 @@ def load():
         if not l.strip():
             continue
         pid = json.loads(l)["id"]
-        if os.path.exists(os.path.join(HERE, pid.lower() + ".py")) and (not known or pid.lower() + ".py" in known):
+        if os.path.exists(os.path.join(HERE, pid.lower() + ".py")) and pid in READY:
             mod = importlib.import_module(pid.lower())
             if getattr(mod, "REGISTRY", None):
                 checks[pid] = mod.REGISTRY
